@@ -85,9 +85,10 @@ class FixedCell(HasCell):
     def cell(self, cell: Cell) -> None:
         if self.cell is not None:
             raise ValueError("Cannot move agent in FixedCell")
-        self._mesa_cell = cell
 
+        # a full cell raises here, before the agent points at it
         cell.add_agent(self)
+        self._mesa_cell = cell
 
 
 class CellAgent(Agent, HasCell, BasicMovement):
